@@ -246,7 +246,7 @@ def run(chk):
         chk.prove_paths(f"guppy_object_from_py{seq}:each-constant-gets-the-type-of-its-own-python-value(history-independent)", paths, post,
                         func=f"{UNP}:guppy_object_from_py")
     chk.expected_min_obligations = 90
-    chk.not_covered += ["unpack_guppy_object / guppy_object_from_py structural recursion and trace_call (need the hugr builder)",
+    chk.not_covered += ["unpack_guppy_object / guppy_object_from_py structural recursion (need the hugr builder)",
                         "that the traced object's method of a given name is the same definition regular mode resolves (both use Globals.get_instance_func)"]
     chk.assumptions += ["regular-mode dispatch is as proved in C04 (_synthesize_binary, operator tables)",
                         "functools.wraps / capture_guppy_errors / hide_trace decorators are transparent for dispatch (they only rewrap exceptions)"]
@@ -257,6 +257,7 @@ def run(chk):
     upv_obligations(chk, tag="calls-to-guppy-functions:", consts=True)
     struct_attribute_obligations(chk, e, m)
     chk.use_engine(e)
+    chk.section("trace_call", lambda: trace_call_obligations(chk))
 
 
 REPLAY_STRUCT_METHOD = r'''
@@ -409,3 +410,161 @@ def struct_attribute_obligations(chk, e, m):
             n += 1
     cleanup()
     chk.record("GuppyStructObject:attribute-cases-explored", n >= 20, str(n), kind="reachability")
+
+
+REPLAY_TRACE_CALL = r'''
+import guppy_plainbool
+import tempfile, importlib.util, os, sys, shutil
+BODY = """    bump(xs)
+    a = xs[0] * 100 + xs[1]
+    bump(xs)
+    return a * 1000 + xs[0] * 100 + xs[1]
+"""
+src = """from guppylang import guppy
+from guppylang.std.builtins import array, owned, result
+@guppy
+def bump(xs: array[int, 2]) -> None:
+    xs[0] += 1
+    xs[1] += 2
+@guppy.comptime
+def c_owned(xs: array[int, 2] @owned) -> int:
+""" + BODY + """@guppy
+def r_owned(xs: array[int, 2] @owned) -> int:
+""" + BODY + """@guppy.comptime
+def c_borrowed(xs: array[int, 2]) -> int:
+""" + BODY + """@guppy
+def r_borrowed(xs: array[int, 2]) -> int:
+""" + BODY + """@guppy.comptime
+def c_local() -> int:
+    xs = [1, 2]
+""" + BODY + """@guppy
+def r_local() -> int:
+    xs = array(1, 2)
+""" + BODY + """@guppy
+def main() -> None:
+    result("c_owned", c_owned(array(1, 2))); result("r_owned", r_owned(array(1, 2)))
+    ys = array(1, 2)
+    result("c_borrowed", c_borrowed(ys))
+    zs = array(1, 2)
+    result("r_borrowed", r_borrowed(zs))
+    result("c_local", c_local()); result("r_local", r_local())
+"""
+d = tempfile.mkdtemp(dir=os.environ.get("TMPDIR", "/var/tmp")); fn = os.path.join(d, "replay_c21t.py"); open(fn, "w").write(src)
+spec = importlib.util.spec_from_file_location("replay_c21t", fn); m = importlib.util.module_from_spec(spec); sys.modules["replay_c21t"] = m
+spec.loader.exec_module(m)
+ent = {t: int(v) for t, v in list(m.main.emulator(n_qubits=1).run().results)[0].entries}
+shutil.rmtree(d, ignore_errors=True)
+bad = [k for k in ("owned", "borrowed", "local") if ent["c_" + k] != ent["r_" + k]]
+print(json.dumps({"violates": bool(bad), "observed": ent, "required": "the comptime and the regular version of the same body report the same value",
+                  "detail": "; ".join(f"{k}: comptime {ent['c_' + k]} vs regular {ent['r_' + k]}" for k in bad)}))
+'''
+
+
+def trace_call_obligations(chk, tag=""):
+    """trace_call (tracing/function.py): a call of a Guppy function from a comptime body.  After the call
+    has been compiled, for EVERY borrowed parameter — whatever Python object was passed for it (traced
+    object, list, the frozen list of an owned array argument, tuple, struct object) — the caller's object
+    is updated from the wire the callee handed back: update_packed_value(the very argument object,
+    GuppyObject(type of the argument, that wire), builder), once, in parameter order, after the call was
+    compiled; a False result is a GuppyComptimeError; parameters that are not borrowed are left alone;
+    the result is the unpacked object of the call's result wire.  (Later reads in the comptime body see
+    what a regular body sees.)"""
+    import itertools
+    FN = "guppylang_internals.tracing.function"
+    e = mk_engine(chk)
+    e.func_info(FN, "trace_call")
+    m = e.module(FN)
+    KINDS = ("object", "list", "frozenlist", "tuple")
+    log = []
+    OBJ = ClassVal("GuppyObjectStub", builtin=True)
+
+    def world(it, kinds, flags, fail_at):
+        del log[:]
+        FL = it.lookup_global(e.module("guppylang_internals.tracing.frozenlist"), "frozenlist")
+        IF = it.lookup_global(e.module("guppylang_internals.tys.ty"), "InputFlags")
+        args = []
+        for i, k in enumerate(kinds):
+            if k == "object":
+                args.append(SObj(OBJ, {"i": i, "kind": "arg"}))
+            elif k == "list":
+                args.append([SObj(OBJ, {"i": i, "kind": "elem"})])
+            elif k == "frozenlist":
+                args.append(SObj(FL, {"i": i, "kind": "frozen"}))
+            else:
+                args.append((SObj(OBJ, {"i": i, "kind": "elem"}),))
+        dfg_store = {}
+        DFG = ClassVal("DFContainerStub", builtin=True)
+        DFG.attrs["__setitem__"] = Builtin("__setitem__", lambda s_, k_, v_: (log.append(("dfg-set", k_.fields["name"], v_)), dfg_store.__setitem__(k_.fields["name"], v_))[0])
+        DFG.attrs["__getitem__"] = Builtin("__getitem__", lambda s_, k_: dfg_store[k_.fields["name"]])
+        dfg = SObj(DFG, {"builder": "BUILDER"})
+        state = SObj(ClassVal("TracingState", builtin=True), {"dfg": dfg, "node": "NODE", "ctx": "CTX", "globals": "GLOBALS"})
+        e.models["guppylang_internals.tracing.state:get_tracing_state"] = lambda it2, a, k2: state
+
+        def from_py(it2, a, k2):
+            arg = a[0]
+            idx = args.index(arg) if isinstance(arg, SObj) else [j for j, x in enumerate(args) if x is arg][0]
+            o = SObj(OBJ, {"_ty": ("ty", idx), "src": arg})
+            o.fields["_use_wire"] = Builtin("_use_wire", lambda f: ("wire-in", idx))
+            return o
+        e.models["guppylang_internals.tracing.unpacking:guppy_object_from_py"] = from_py
+        e.models["guppylang_internals.checker.core:ComptimeVariable"] = lambda it2, a, k2: SObj(ClassVal("ComptimeVariable", builtin=True), {"name": a[0], "ty": a[1], "static_value": k2.get("static_value")})
+        e.models["guppylang_internals.checker.core:Locals"] = lambda it2, a, k2: ("locals", a[0])
+        e.models["guppylang_internals.checker.core:Context"] = lambda it2, a, k2: ("context",) + tuple(a)
+        e.models["guppylang_internals.ast_util:with_loc"] = lambda it2, a, k2: a[1]
+        e.models["guppylang_internals.ast_util:with_type"] = lambda it2, a, k2: a[1]
+        e.models["guppylang_internals.nodes:PlaceNode"] = lambda it2, a, k2: ("place-node", a[0])
+
+        def compile_(node, dfg_):
+            log.append(("compile", node))
+            # compiling the call re-binds the borrowed arguments to the wires the callee hands back
+            for j, fl in enumerate(flags):
+                if fl == "Inout":
+                    dfg_store[f"%tmp{j}"] = ("wire-back", j)
+            return "RET-WIRE"
+        e.models["guppylang_internals.compiler.expr_compiler:ExprCompiler"] = lambda it2, a, k2: SObj(ClassVal("ExprCompilerStub", builtin=True), {"compile": Builtin("compile", compile_)})
+        e.models["guppylang_internals.tracing.object:GuppyObject"] = lambda it2, a, k2: SObj(OBJ, {"_ty": a[0], "_wire": a[1], "kind": "fresh"})
+
+        def upv(it2, a, k2):
+            log.append(("update", a[0], a[1].fields["_ty"], a[1].fields["_wire"], a[2]))
+            return len([x for x in log if x[0] == "update"]) - 1 != fail_at
+        e.models["guppylang_internals.tracing.unpacking:update_packed_value"] = upv
+        e.models["guppylang_internals.tracing.unpacking:unpack_guppy_object"] = lambda it2, a, k2: ("unpacked", a[0].fields["_ty"], a[0].fields["_wire"], a[1])
+        it.ctx.mod_globals(m)["tmp_vars"] = [f"%tmp{j}" for j in range(len(kinds) + 1)]
+        inputs = [SObj(ClassVal("FuncInput", builtin=True), {"flags": it.getattr(IF, fl), "ty": ("declared", j)}) for j, fl in enumerate(flags)]
+        func = SObj(ClassVal("CallableDefStub", builtin=True), {"ty": SObj(ClassVal("FT", builtin=True), {"inputs": inputs})})
+        func.fields["synthesize_call"] = Builtin("synthesize_call", lambda exprs, node, ctx: (log.append(("synthesize", list(exprs))), (("call-node", list(exprs)), "RET-TY"))[1])
+        return func, args
+
+    n = 0
+    for nargs in (1, 2):
+        for kinds in itertools.product(KINDS, repeat=nargs):
+            for flags in itertools.product(("Inout", "NoFlags", "Owned"), repeat=nargs):
+                if nargs == 2 and kinds[0] == "tuple":
+                    continue
+                n_borrowed = sum(1 for f_ in flags if f_ == "Inout")
+                for fail_at in [None] + list(range(n_borrowed)):
+                    def t(it, kinds=kinds, flags=flags, fail_at=fail_at):
+                        func, args = world(it, kinds, flags, fail_at)
+                        r = it.call(it.lookup_global(m, "trace_call"), [func, *args], {})
+                        return r, list(log), args
+
+                    def post(p, kinds=kinds, flags=flags, fail_at=fail_at):
+                        lg = p.value[1] if p.kind == "return" else list(log)
+                        if fail_at is not None:
+                            return z3.BoolVal(p.kind == "raise" and p.raised(e, "GuppyComptimeError"))
+                        if p.kind != "return":
+                            return z3.BoolVal(False)
+                        r, lg, args = p.value
+                        ups = [x for x in lg if x[0] == "update"]
+                        want = [(j, ("ty", j), ("wire-back", j)) for j, f_ in enumerate(flags) if f_ == "Inout"]
+                        ok = len(ups) == len(want) and all(u[1] is args[j] and u[2] == ty and u[3] == w and u[4] == "BUILDER" for u, (j, ty, w) in zip(ups, want))
+                        ic = [k_ for k_, x in enumerate(lg) if x[0] == "compile"]
+                        iu = [k_ for k_, x in enumerate(lg) if x[0] == "update"]
+                        ok = ok and len(ic) == 1 and all(k_ > ic[0] for k_ in iu)
+                        ok = ok and r == ("unpacked", "RET-TY", "RET-WIRE", "BUILDER")
+                        return z3.BoolVal(bool(ok))
+                    chk.prove_paths(f"{tag}trace_call[args={','.join(kinds)};flags={','.join(flags)};update-fails-at={fail_at}]:every-borrowed-argument-object-is-updated-from-the-wire-handed-back(once,in-order,after-the-call)/\\others-untouched/\\failed-update-raises",
+                                    e.explore(t), post, func=f"{FN}:trace_call", replay=lambda m_: {"script": REPLAY_TRACE_CALL, "input": {}})
+                    n += 1
+    chk.record(f"{tag}trace_call:argument-shapes-explored", n >= 100, str(n), kind="reachability")
+    chk.use_engine(e)
